@@ -225,7 +225,8 @@ def _acceptance_table(ctx, P, fi, spec):
 def _round_trip(ctx, P):
     fi = P.func("grid_ufunc:_parse_signature_from_string")
     pfi = P.func("grid_ufunc:_GridUFuncSignature.__str__")
-    names = ["X", "leftover", "c", "Xinner", "center_2", "Y"] if ctx.thorough else ["X", "leftover", "c", "Xinner"]
+    # every word of `\w+` is a name: also one that starts with a digit, is all digits, is not ASCII, is an underscore
+    names = ["X", "leftover", "c", "Xinner", "center_2", "Y", "2d", "\u03bb", "7", "_"] if ctx.thorough else ["X", "leftover", "c", "Xinner", "2d", "\u03bb"]
     positions = ["center", "left", "right", "inner", "outer"]
     # bounded family: every (name, position) pair appears; arguments with 0, 1, 2 pairs; 1-2 inputs, 1-2 outputs
     pairs = [(n, p) for n in names for p in positions]
